@@ -200,6 +200,7 @@ def lane_balance(a, spec):
     rng = random.Random("c15/bal/%d/%d" % (spec["seed"], spec["shard"]))
     for t in range(6 if spec["tier"] == "quick" else 120):
         world = gen.World(rng, nkeys=8)
+        world.odd_reward_prob = rng.choice([0.0, 0.3])
         for step in range(rng.randint(2, 6)):
             world.grow(rng.randint(1, 6), rng, tx_prob=0.7)
             head = world.cs.current_chain_hash
